@@ -29,7 +29,8 @@ RULE = (
     "entries under surviving keys evaluate to the observed values; (5) a nested snapshot( keeps its wrapper "
     "unless its holding element was removed. The comparison is executed once, twice in a loop (the argument "
     "is evaluated again and user-controlled slots are re-bound) or never (then only `update` may touch the "
-    "text, and never a user-controlled part or a star container). Arm star_getitem: `snapshot({**COMMON, ...})[key]` "
+    "text, and never a user-controlled part or a star container). Arm default_nested: Is(V) inside a tuple / list / constructor call that is the value of a field whose default is such a "
+    "container (the argument as a whole may be equal to the default): Is(V) survives every approved set. Arm star_getitem: `snapshot({**COMMON, ...})[key]` "
     "with generated keys / values / approved sets: the dict display keeps its whole text. non-trivial = >= 1 user-controlled and >= 1 managed sibling with "
     "a pending change in the same container."
 )
@@ -575,7 +576,54 @@ def check_star_getitem(case):
     return {"nontrivial": bool(F), "classes": ["star-getitem", "F=" + ",".join(F)], "sample": {"F": F, "before": src}}
 
 
+# ---------------------------------------------------------------------------- defaults that are containers
+
+
+@st.composite
+def _default_nested_case(draw, tier):
+    return {"field": draw(st.sampled_from(["t", "lst", "pt"])), "v": draw(st.sampled_from([0, 0, 0, 7])),
+            "obs": draw(st.sampled_from([0, 5])), "n_new": draw(st.sampled_from([1, 2])), "F": draw(flag_sets()),
+            "outer": draw(st.sampled_from(["call", "list", "dict"]))}
+
+
+def check_default_nested(case):
+    """Is(V) inside a container / constructor call that sits in a field whose default is such a container: when
+    V equals the default's part the whole argument is *equal to the default* - Is(V) must survive all the same"""
+    import warnings
+
+    f, v, obs = case["field"], case["v"], case["obs"]
+    old = {"t": "(Is(V), 0)", "lst": "[Is(V)]", "pt": "Point(x=Is(V), y=0)"}[f]
+    new = {"t": f"({obs}, 0)", "lst": f"[{obs}]", "pt": f"Point(x={obs}, y=0)"}[f]
+    old_call = f"Holder({f}={old}, n=0+1)"
+    new_call = f"Holder({f}={new}, n={case['n_new']})"
+    wrap = {"call": "%s", "list": "[%s, 2]", "dict": "{'h': %s}"}[case["outer"]]
+    src = ("from inline_snapshot import snapshot, Is\nfrom vf_prelude import *\n\n" + f"V = {v}\n\n\ndef test_a():\n"
+           f"    assert {wrap % new_call} == snapshot({wrap % old_call})\n")
+    F = case["F"]
+    with warnings.catch_warnings():
+        warnings.simplefilter("ignore")
+        ses = drivers.run_inline({"test_a.py": src}, set(F))
+    if not ses.ok():
+        err = ses.exec_error or ses.collect_error or ses.apply_error
+        raise Violation(f"session-exception:{type(err).__name__}", f"F={F} {type(err).__name__}: {err}\n{src}")
+    after = ses.files_after["test_a.py"].decode("utf-8")
+    try:
+        new_arg = oracles.site_arg_texts(after)[0]
+    except Exception as e:
+        raise Violation("unparsable", f"F={F} {e}\n--- before\n{src}\n--- after\n{after}")
+    dropped_default = (obs == 0 and ("update" in F or ("fix" in F and v != 0))
+                       and f"{f}=" not in new_arg.replace(" ", ""))
+    # (a keyword whose new value is the field default may be dropped as a whole - by update when the value did not
+    # change, by fix when it did: "removed together with the element that holds it")
+    if new_arg.count("Is(V)") != 1 and not dropped_default:
+        raise Violation("unmanaged-removed",
+                        f"F={F} 'Is(V)' under the surviving keyword {f} was rewritten\n--- before\n{src}\n--- after\n{after}")
+    return {"nontrivial": v == 0 and obs != v and bool(set(F) & {"fix", "update"}),
+            "classes": ["default-nested", f, case["outer"], "F=" + ",".join(F)], "sample": {"F": F, "before": src, "after_arg": new_arg}}
+
+
 # few, long shards: hypothesis ramps the size of its examples up over the first hundreds of examples of a run
 ARMS = [HypArm("mixed", _strategy, check, budget={"quick": 6000, "thorough": 200000},
                shards={"quick": 6, "thorough": 32}),
+        HypArm("default_nested", _default_nested_case, check_default_nested, budget={"quick": 400, "thorough": 5000}),
         HypArm("star_getitem", _star_getitem_case, check_star_getitem, budget={"quick": 400, "thorough": 10000})]
